@@ -8,6 +8,8 @@ import (
 	"math/rand/v2"
 	"strconv"
 	"strings"
+	"sync"
+	"sync/atomic"
 	"unicode/utf8"
 
 	"golang.org/x/mod/sumdb/tlog"
@@ -250,13 +252,55 @@ func runC09(c *mon.Ctx) {
 		c.Class("zero-copy-reader:store-intact")
 	}
 
+	// ---- several independent logs built at the same time (the hash functions are pure) ----------------
+	if c.Batch%4 == 3 {
+		const G = 8
+		n := c.Scale(300, 1500)
+		var wg sync.WaitGroup
+		var bad atomic.Int64
+		var first atomic.Value
+		for g := 0; g < G; g++ {
+			recs := genRecords(r, n)
+			wg.Add(1)
+			go func(g int) {
+				defer wg.Done()
+				ref := refmerkle.New(recs)
+				st, err := buildStore(recs)
+				if err != nil {
+					bad.Add(1)
+					first.CompareAndSwap(nil, err.Error())
+					return
+				}
+				want := ref.StoredAll(n)
+				for i := range st {
+					if rH(st[i]) != want[i] {
+						bad.Add(1)
+						first.CompareAndSwap(nil, fmt.Sprintf("log %d: stored hash %d is not the RFC 6962 subtree hash", g, i))
+						return
+					}
+				}
+				th, err := tlog.TreeHash(int64(n), &storeReader{store: st, limit: -1})
+				if err != nil || rH(th) != ref.Root(n) {
+					bad.Add(1)
+					first.CompareAndSwap(nil, fmt.Sprintf("log %d: tree hash wrong", g))
+				}
+			}(g)
+		}
+		wg.Wait()
+		c.Eval(G * n)
+		c.Class("concurrent-logs:8-goroutines")
+		if bad.Load() > 0 {
+			c.Violation("concurrently-built-log-not-rfc6962", "concurrent-logs", map[string]any{"logs_wrong": bad.Load(), "first": first.Load()})
+		}
+	}
+
 	// ---- leaf hash of records of every length 0..1100 and around larger powers of two -------------
 	if c.Batch%4 == 0 {
 		lens := []int{}
 		for l := 0; l <= 1100; l++ {
 			lens = append(lens, l)
 		}
-		lens = append(lens, 2047, 2048, 2049, 4095, 4096, 4097, 8191, 8192, 8193, 65535, 65536, 65537, 1<<20 - 1, 1 << 20, 1<<20 + 1)
+		lens = append(lens, 2047, 2048, 2049, 4095, 4096, 4097, 8191, 8192, 8193, 65535, 65536, 65537, 1<<20-1, 1<<20, 1<<20+1)
 		for _, l := range lens {
 			id := fmt.Sprintf("recordhash:len%d", l)
 			if !c.Want(id) {
